@@ -859,6 +859,10 @@ FlagOf(b) == CASE b.cause = "precedence" -> IF b.pos = "unpack" THEN "q" ELSE "p
                [] b.cause = "fstring-text-unescaped" -> "v" [] OTHER -> "-"
 \* regression domain (cfg ExprBuild_regress): with a repair reverted in the model TLC must exhibit the old defect again
 OldDefectGone == Done => ~\E b \in bad : FlagOf(b) \in Reverted
+\* the same domain in one run (cfg ExprBuild_regressall, Reverted = all repairs = the transcription of the pinned code): every
+\* old defect record is printed; the driver requires a witness for every repair (quick tier; thorough runs one job per repair)
+ExhibitOld == (Done /\ Reverted # {}) =>
+                 \A b \in bad : (FlagOf(b) \in Reverted) => PrintT(<<"NOTE", ToJson([flag |-> FlagOf(b), cause |-> b.cause, chain |-> chain])>>)
 \* and a repair in effect leaves none of its defects (every domain)
 RepairedStaysRepaired == Done => \A b \in bad : ~Has(FlagOf(b)) \/ (FlagOf(b) = "s" /\ b.parent = "Top")
 \* every way the model breaks the property is one of the declared defect classes
@@ -886,6 +890,8 @@ NamesPresent == (Done /\ (FixFormatSpec \/ ~HasSpec(tree))) => NameTokens(impl) 
 EmitCase ==
   (Emit /\ Done) =>
      PrintT(<<"CASE", ToJson([top |-> top, P0 |-> P0, chain |-> chain, tree |-> tree, impl |-> impl, ref |-> ref,
-                              bad |-> bad, names |-> srcnames, clean |-> Clean,
-                              itree |-> ITree(tree, built), rtree |-> RTree(tree, Ctx(top = "annotation", FALSE, FALSE))])>>)
+                              bad |-> bad, clean |-> Clean,
+                              \* the two expanded trees differ from `tree` only when it holds strings (<<>>: same as tree)
+                              itree |-> IF HasStr(tree) THEN ITree(tree, built) ELSE <<>>,
+                              rtree |-> IF HasStr(tree) THEN RTree(tree, Ctx(top = "annotation", FALSE, FALSE)) ELSE <<>>])>>)
 =============================================================================
